@@ -34,7 +34,7 @@ def main():
         prop, k = parts[0], parts[1]
         extras = parts[2].split(",") if len(parts) > 2 and parts[2] else []
         out = os.path.join(root, prop, "out")
-        sid = "%s-%s" % (prop, k)
+        sid = "%s-%s" % (prop, parts[3] if len(parts) > 3 else k)
         dest = os.path.join(HERE, "seeded", sid)
         os.makedirs(dest, exist_ok=True)
         # patch against HEAD
@@ -57,7 +57,10 @@ def main():
             if fn.endswith(".qasm") or fn.startswith(("patch", "notes")):
                 continue
             if fn.startswith("demo%s" % k) or not fn.startswith("demo"):
-                shutil.copy(os.path.join(out, fn), os.path.join(dest, fn))
+                if os.path.isdir(os.path.join(out, fn)):
+                    shutil.copytree(os.path.join(out, fn), os.path.join(dest, fn), dirs_exist_ok=True)
+                else:
+                    shutil.copy(os.path.join(out, fn), os.path.join(dest, fn))
                 files.append(fn)
         notes = open(os.path.join(out, "notes%s.md" % k)).read()
         with open(os.path.join(dest, "notes.md"), "w") as f:
